@@ -61,9 +61,10 @@ type KV struct {
 }
 // OEvent / OStatus: a span's events (time, name, attributes) and status (message, code): untouched by the write path, part of the payload
 type OEvent struct {
-	T     uint64 `json:"t"`
-	N     string `json:"n"`
-	Attrs []KV   `json:"attrs"`
+	T       uint64 `json:"t"`
+	N       string `json:"n"`
+	Attrs   []KV   `json:"attrs"`
+	Dropped uint32 `json:"dropped,omitempty"` // dropped_attributes_count
 }
 type OStatus struct {
 	Msg  string `json:"msg"`
@@ -174,6 +175,7 @@ type RSpan struct {
 type Ev struct {
 	T uint64 `json:"t"`
 	N string `json:"n"`
+	D uint32 `json:"d,omitempty"` // dropped_attributes_count (OTLP)
 }
 type Case struct {
 	ID    int    `json:"id"`
@@ -350,7 +352,7 @@ func toSpan(s OSpan) *trace.Span {
 	sp := &trace.Span{TraceId: unhex(s.Tid), SpanId: unhex(s.Sid), ParentSpanId: unhex(s.Pid), Name: s.Name,
 		StartTimeUnixNano: s.Start, EndTimeUnixNano: s.End, Kind: trace.Span_SpanKind(s.Kind), Attributes: toKVs(s.Attrs)}
 	for _, e := range s.Events {
-		sp.Events = append(sp.Events, &trace.Span_Event{TimeUnixNano: e.T, Name: e.N, Attributes: toKVs(e.Attrs)})
+		sp.Events = append(sp.Events, &trace.Span_Event{TimeUnixNano: e.T, Name: e.N, Attributes: toKVs(e.Attrs), DroppedAttributesCount: e.Dropped})
 	}
 	if s.Status != nil {
 		sp.Status = &trace.Status{Message: s.Status.Msg, Code: trace.Status_StatusCode(s.Status.Code)}
@@ -380,7 +382,7 @@ func fromSpan(s *trace.Span) *OSpan {
 	o := &OSpan{Tid: hex.EncodeToString(s.TraceId), Sid: hex.EncodeToString(s.SpanId), Pid: hex.EncodeToString(s.ParentSpanId),
 		Name: s.Name, Start: s.StartTimeUnixNano, End: s.EndTimeUnixNano, Kind: int32(s.Kind), Attrs: fromKVs(s.Attributes)}
 	for _, e := range s.Events {
-		o.Events = append(o.Events, OEvent{T: e.TimeUnixNano, N: e.Name, Attrs: fromKVs(e.Attributes)})
+		o.Events = append(o.Events, OEvent{T: e.TimeUnixNano, N: e.Name, Attrs: fromKVs(e.Attributes), Dropped: e.DroppedAttributesCount})
 	}
 	if s.Status != nil {
 		o.Status = &OStatus{Msg: s.Status.Message, Code: int32(s.Status.Code)}
@@ -771,7 +773,7 @@ func readRows(rs [][]driver.Value) (out []RSpan, pan string) {
 			x.Attrs = fromKVs(s.Attributes)
 			x.Events = []Ev{}
 			for _, e := range s.Events {
-				x.Events = append(x.Events, Ev{T: e.TimeUnixNano, N: e.Name})
+				x.Events = append(x.Events, Ev{T: e.TimeUnixNano, N: e.Name, D: e.DroppedAttributesCount})
 			}
 			if s.Status != nil {
 				x.Status = int32(s.Status.Code)
@@ -1221,6 +1223,10 @@ func run(c *Case, silence bool) {
 						}
 						xj := x
 						xj.More, y.More = nil, nil // the legacy form is rendered without trace_state / counts / links / flags
+						xj.Events = append([]Ev{}, x.Events...)
+						for i := range xj.Events {
+							xj.Events[i].D = 0
+						}
 						full := rspanDiff(xj, y)
 						switch {
 						case full == "":
@@ -1498,6 +1504,9 @@ func genOtlp(r *rand.Rand, c *Case, depth int) {
 						}
 						if r.Intn(2) == 0 {
 							ev.Attrs = genKVs(r, 1+r.Intn(2), 1, false)
+						}
+						if r.Intn(3) == 0 {
+							ev.Dropped = []uint32{1, 7, 300, ^uint32(0)}[r.Intn(4)]
 						}
 						sp.Events = append(sp.Events, ev)
 					}
